@@ -7,6 +7,26 @@ ROOT = os.path.dirname(os.path.dirname(os.path.abspath(__file__)))
 
 # id -> (category, technique, level text, level note, design ref)
 CHECKS = {
+    "C20": ("model_checking",
+            "TLA+ transcription of the index-sequence metaprograms checked by TLC + every enumerated case compiled as a constant expression against the real templates",
+            "TLC checks SortLaw, PermLaw and FilterLaw for every sequence of length <= 6 over {0..4} and every pair of length <= 4 over {0..3} (larger in the thorough tier) plus seeded longer sequences over a rank alphabet that the generator maps to values up to SIZE_MAX; each case with the specified result is compiled into generated translation units, g++ evaluating covfie's templates being the implementation under test.",
+            "Trusted: TLC, g++ 12 template evaluation, lib/gen_c20.py. Large values rely on the order-only nature of the metaprograms (rank abstraction).",
+            "DESIGN.md section 4, C20"),
+    "C04": ("model_checking",
+            "TLA+ rank-space rounding rule checked by TLC + TLC-emitted cases concretised with nextafter on the real layer + trace validation of random lookups",
+            "TLC proves the rule (int/below/half/above -> allowed lattice points) equal to 'every lattice point within one half' on the rank grid; every enumerated per-axis (k, position) combination for N in 1..4 is concretised in float and double (one ulp either side of each half-integer, offsets up to 2^30) and looked up through nearest_neighbour over identity and over strided/array storage; random lookups are validated by Trace_Coord.",
+            "Trusted: TLC, g++ 12, libm nextafter/floor (exact operations), harness/h_nn.cpp. An exact half may round either way. N=3,4 use a per-axis cover (the layer acts per axis).",
+            "DESIGN.md section 4, C04"),
+    "C10": ("model_checking",
+            "TLA+ state machine of clamped lookups in rank space checked by TLC + emitted cases replayed on clamp over identity/probe/array backends under ASan",
+            "TLC checks ClampSafe for every box lo<=hi (bounds incl. the type's extremes) and every coordinate rank incl. lowest/max/+-inf; each enumerated case is replayed for five coordinate types (floating types also with 1-ulp-spaced values) on clamp<identity>, clamp<probe> (queried coordinate, one query) and, with wild coordinates, over array storage above and beneath an interpolator under ASan.",
+            "Trusted: TLC, g++ 12, ASan/UBSan, harness probe backend. Order-only abstraction: clamp only compares, so an order-preserving concretisation of ranks is exact. NaN excluded (as stated).",
+            "DESIGN.md section 4, C10"),
+    "C11": ("model_checking",
+            "TLA+ state machine with a ghost backend-query counter checked by TLC (invariant + action properties) + emitted cases replayed on backup over a counting probe backend",
+            "TLC checks BackupLaw and the action properties NoQueryOutside / OneQueryInside over every box and coordinate rank; each case is replayed on backup<probe> comparing the returned value and the probe's query counter after every lookup, five coordinate types, N in 1..4.",
+            "Trusted: TLC, g++ 12, harness probe backend (harness/probe.hpp). N=3,4 by rotating per-axis cover.",
+            "DESIGN.md section 4, C11"),
     "C01": ("model_checking",
             "TLA+ refinement machine (layer over array storage refines an N-d array) checked by TLC + TLC-emitted index tables replayed on the real layers under ASan + trace validation of random larger extents",
             "TLC checks Refines/InStorage/SizeLaw/Injective for every layout, N in 1..4 and every extent vector in the bound (the index maps are written as the code computes them); the implementation is bound by replaying every enumerated (extents, coordinate) on identity-backed and array-backed layers (portable and -mbmi2, assertions+ASan/UBSan) and by validating recorded index/size events of random larger extents.",
